@@ -144,6 +144,40 @@ theorem join_total (to post j : Part) (h : linepartJoin to post = some j) :
 
 example : linepartJoin ⟨3, 3, 7, 0⟩ ⟨2, 2, 0, 9⟩ = some ⟨5, 5, 7, 9⟩ := by decide +kernel
 
+/-- **Joining keeps every point's drawn count**: replacing two adjacent records by their join changes for no
+    point the number of parts that draw it (and the records behind them start where they started). -/
+theorem join_keeps_drawn (to post j : Part) (rest : List Part) (start i : Nat) (h : linepartJoin to post = some j) :
+    drawnCount (j :: rest) start i = drawnCount (to :: post :: rest) start i := by
+  obtain ⟨h1, h2, _, _, _, h6, _, _⟩ := join_total to post j h
+  simp only [drawnCount]
+  rw [h1, h2, h6]
+  have e : start + (to.raw + post.raw) = start + to.raw + post.raw := by omega
+  rw [e]
+  by_cases a : start ≤ i ∧ i < start + (to.raw + post.usr)
+  · by_cases b : start ≤ i ∧ i < start + to.raw
+    · rw [if_pos a, if_pos b, if_neg (by omega)]; omega
+    · rw [if_pos a, if_neg b, if_pos (by omega)]; omega
+  · rw [if_neg a, if_neg (by omega), if_neg (by omega)]; omega
+
+/-- **A lone out-of-range point is consumed, not drawn** (the one-point remainders behind a full part of
+    65535 or 65533 points). -/
+theorem single_point (x : Rat) (r : Range) (h : r.has x = false) :
+    linepartLinear [x] (some r) = { raw := 1, usr := 0, cut := 0, trim := 0 } := by
+  have ho : out r x = true := by
+    rw [has_eq_not_out] at h; simpa using h
+  show linearCore r ([x].take u16max) = _
+  have : [x].take u16max = [x] := rfl
+  rw [this, linearCore_eq]
+  have hb : bIdx r [x] = 0 := by simp [bIdx, kIdx, headCut, visLen, ho]
+  have ht : tLen r [x] = 0 := by simp [tLen, hb, outLen]
+  simp [hb, ht, headCut]
+
+/-- without a range every point is drawn and a call takes `min len 65535` points: the default
+    `transform::part()` makes progress for every length (65536 included) -/
+theorem no_range_part (xs : List Rat) :
+    linepartLinear xs none = { raw := min 65535 xs.length, usr := min 65535 xs.length, cut := 0, trim := 0 } :=
+  linear_none xs
+
 /-! ### Stated, not proved (checked per script by the model driver and tied to the code by the C++ driver part) -/
 
 /-- the merge path of `linepart::array::apply` (as `polyline::set` uses it: parts for `n` points first, then
